@@ -9,6 +9,7 @@ is positive, so nothing cancels.  The result is never decomposed back into its c
 
 The second half is the reading of the documented string forms (formula_grammar.rst): a tiny AST,
 its printer, and the arithmetic of the stated absolute amounts (grams, metres)."""
+import re
 from fractions import Fraction
 
 # ---------------------------------------------------------------- materials
@@ -104,6 +105,29 @@ VOLUME_SPELLINGS = tuple(w + "%" for w in VOLUME_WORDS) + tuple("%" + w for w in
 CANON_SPELLING = {"w": "wt%", "v": "vol%"}
 SEPARATORS = (" // ", "//", " //", "// ")
 
+# Forced collisions: a compound that directly follows a percent sign or a unit and whose leading element
+# symbol begins (case-insensitively) with a letter that also begins a percent word or a unit spelling
+# (W ~ w/wt/weight, Mo Mg Mn ~ m/mass/mg/mL/mm, V ~ v/vol, K ~ kg, Ge ~ g, U ~ ug/uL/um, N ~ ng/nL/nm,
+# Li ~ L, Cm ~ cm).  The grammar must read these exactly like any other compound.
+UNIT_WORDS = WEIGHT_WORDS + VOLUME_WORDS + tuple(MASS) + tuple(VOLUME) + tuple(LENGTH)
+COLLISION_LETTERS = frozenset(w[0].lower() for w in UNIT_WORDS)
+_LEAD = re.compile(r"[0-9.]*([A-Z])")
+
+
+def collides(symbol):
+    return symbol[:1].lower() in COLLISION_LETTERS
+
+
+def lead_letter(text):
+    """Leading capital of a compound text if it is a collision letter, else None."""
+    m = _LEAD.match(text)
+    if m and m.group(1).lower() in COLLISION_LETTERS:
+        return m.group(1)
+    return None
+
+
+NEUTRAL_COMPOUND = "Ti"      # leading letter begins no percent word and no unit
+
 # AST (JSON-able lists):
 #   ["c", text]                                   compound (text in the compound grammar)
 #   ["p", kind, [[value, spelling, part], ...], lastpart]      percentage mixture, kind 'w' | 'v'
@@ -175,7 +199,10 @@ def features(node, acc=None):
     """Deviations from the canonical spelling, used to name the cause of a failure."""
     acc = set() if acc is None else acc
     t = node[0]
-    if t == "n":
+    if t == "c":
+        if lead_letter(node[1]):
+            acc.add("lead=" + lead_letter(node[1]))
+    elif t == "n":
         acc.add("nested")
         if node[2]:
             acc.add("tag")
@@ -204,6 +231,8 @@ def revert(node, feat):
     """The same derivation with one deviation taken back (still a valid case of the space)."""
     t = node[0]
     if t == "c":
+        if feat.startswith("lead=") and lead_letter(node[1]) == feat[5:]:
+            return ["c", NEUTRAL_COMPOUND]
         return node
     if t == "n":
         if feat == "nested":
